@@ -7,10 +7,12 @@
   `SessionB.stepB Backend.posix` (the same transcription with the backend as a parameter;
   `stepB_mem_is_session_step` proves that the parametrised text on `Backend.mem` IS `Session.step`).
 
-  `ftp_step_bisim` (every command gives the same replies, bytes and tree on both) is FALSE on the pinned tree:
-  four witnesses (finding F7; the fourth region was found by the correspondence run of this check).
-  `ftp_step_bisim_partial` holds for ALL configurations, trees, session states and events outside those four
-  decidable regions.  POSIX semantics are modelled, not verified.
+  `ftp_step_bisim` (every command gives the same replies, bytes, listing, session state and tree on both) holds
+  for ALL configurations, trees, session states and events (root-aimed mutations aside, which the guards of
+  the real server refuse before the backend is asked).  On the pinned tree it was FALSE in four regions
+  (finding F7 a–d: `MemoryPathIO.rename` through a file, into itself, of a vanished source onto its own path;
+  `_open("r+b")` creating a missing file); they are repaired in /repo and the old `rename`/`_open` are kept as
+  `Fs.renameOld`/`Fs.openFileOld` for the witnesses.  POSIX semantics are modelled, not verified.
 -/
 import AioftpModel.Lemmas.Backends
 import AioftpModel.Generated.PathIO
@@ -32,7 +34,7 @@ def aimedAtRoot (s0 : SState) (v : Verb) (t : Path) : Bool :=
 theorem stepB_mem_is_session_step (cfg : Cfg) (w : World) (s : SState) (ev : Event) :
     stepB Backend.mem cfg w s ev = step cfg w s ev := stepB_mem cfg w s ev
 
-/-! ## negative witnesses: `ftp_step_bisim` is false (finding F7) -/
+/-! ## what finding F7 was: the old Memory `rename` / `_open` against the filesystem -/
 
 def cfg1 : Cfg := ⟨[⟨none, none, ⟨1, []⟩, [], none⟩], none, false⟩
 
@@ -43,79 +45,53 @@ def w1 : World := ⟨tree1, none, [none]⟩
 
 theorem tree1_wf : WF tree1 := ⟨by decide, by decide, by decide⟩
 
-/-- F7-a: `RNFR a` / `RNTO f/x` where `f` is a file: both answer 451, but Memory has lost `a` and everything
-    below it; the filesystem backend fails cleanly. -/
-theorem witness_rename_through_file :
-    let s : SState := { user := some 0, logged := true, renameFrom := some ["a".toList] }
-    let ev := Event.line "RNTO f/x".toList []
-    let rm := step cfg1 w1 s ev
-    let rp := stepB Backend.posix cfg1 w1 s ev
-    rm.2.2.replies = [451] ∧ rp.2.2.replies = [451] ∧
-    rm.1.fs = [(["f".toList], .file [1])] ∧ rp.1.fs = tree1 := by
+/-- F7-a: rename `a` to `f/x` where `f` is a file: both fail, but the old Memory code had already detached `a`
+    and everything below it; the filesystem fails cleanly -/
+theorem old_rename_through_file :
+    Fs.renameOld tree1 ["a".toList] ["f".toList, "x".toList] = ([(["f".toList], .file [1])], false) ∧
+    Backend.posix.rename tree1 ["a".toList] ["f".toList, "x".toList] = (tree1, false) ∧
+    Fs.rename tree1 ["a".toList] ["f".toList, "x".toList] = (tree1, false) := by decide
+
+/-- F7-b: rename `a` to `a/sub`: the old Memory code "succeeded" and the directory was gone; POSIX refuses -/
+theorem old_rename_into_itself :
+    Fs.renameOld tree1 ["a".toList] ["a".toList, "sub".toList] = ([(["f".toList], .file [1])], true) ∧
+    Backend.posix.rename tree1 ["a".toList] ["a".toList, "sub".toList] = (tree1, false) ∧
+    Fs.rename tree1 ["a".toList] ["a".toList, "sub".toList] = (tree1, false) := by decide
+
+/-- F7-c: `open("new", "r+b")`: the old Memory code created the file; POSIX refuses -/
+theorem old_restart_creates :
+    Fs.openFileOld tree1 ["new".toList] 3 = some (tree1 ++ [(["new".toList], .file [])], [], 0) ∧
+    Backend.ofRes (Posix.openFile tree1 ["new".toList] 3) = none ∧
+    Fs.openFile tree1 ["new".toList] 3 = none := by decide
+
+/-- F7-d: rename of the vanished `g` onto its own path: the old Memory code compared the paths first and
+    "succeeded"; POSIX refuses -/
+theorem old_rename_vanished_same_path :
+    Fs.renameOld tree1 ["g".toList] ["g".toList] = (tree1, true) ∧
+    Backend.posix.rename tree1 ["g".toList] ["g".toList] = (tree1, false) ∧
+    Fs.rename tree1 ["g".toList] ["g".toList] = (tree1, false) := by decide
+
+/-- the four histories of the finding on the tree as it is now: same replies, same trees -/
+theorem f7_histories_agree :
+    let sa : SState := { user := some 0, logged := true, renameFrom := some ["a".toList] }
+    let sg : SState := { user := some 0, logged := true, renameFrom := some ["g".toList] }
+    let sr : SState := { user := some 0, logged := true, passive := true, dataConn := true, transferOffset := 3 }
+    (step cfg1 w1 sa (.line "RNTO f/x".toList [])).2.2.replies = [451] ∧
+    (step cfg1 w1 sa (.line "RNTO f/x".toList [])).1.fs = tree1 ∧
+    (step cfg1 w1 sa (.line "RNTO a/sub".toList [])).2.2.replies = [451] ∧
+    (step cfg1 w1 sa (.line "RNTO a/sub".toList [])).1.fs = tree1 ∧
+    (step cfg1 w1 sg (.line "RNTO g".toList [])).2.2.replies = [451] ∧
+    (bodyB Backend.mem cfg1 w1 sr .stor "new".toList ⟨0, ["new".toList]⟩ [9, 9]).2.2.replies = [150, 451] ∧
+    (bodyB Backend.posix cfg1 w1 sr .stor "new".toList ⟨0, ["new".toList]⟩ [9, 9]).2.2.replies = [150, 451] := by
   decide
-
-/-- F7-b: `RNFR a` / `RNTO a/sub` : Memory answers 250 and the directory is gone; POSIX answers 451 (EINVAL) -/
-theorem witness_rename_into_itself :
-    let s : SState := { user := some 0, logged := true, renameFrom := some ["a".toList] }
-    let ev := Event.line "RNTO a/sub".toList []
-    let rm := step cfg1 w1 s ev
-    let rp := stepB Backend.posix cfg1 w1 s ev
-    rm.2.2.replies = [250] ∧ rp.2.2.replies = [451] ∧
-    rm.1.fs = [(["f".toList], .file [1])] ∧ rp.1.fs = tree1 := by
-  decide
-
-/-- F7-c: `REST 3` / `STOR new`: mode "r+b" creates the file on Memory (zero-filled up to the offset);
-    on POSIX the open fails: 150 then 451, nothing created -/
-theorem witness_restart_creates :
-    let s : SState := { user := some 0, logged := true, passive := true, dataConn := true, restartOffset := 3 }
-    let ev := Event.line "STOR new".toList [9, 9]
-    let rm := step cfg1 w1 s ev
-    let rp := stepB Backend.posix cfg1 w1 s ev
-    rm.2.2.replies = [150, 226] ∧ rp.2.2.replies = [150, 451] ∧
-    rm.1.fs = tree1 ++ [(["new".toList], .file [0, 0, 0, 9, 9])] ∧ rp.1.fs = tree1 := by
-  decide
-
-/-- F7-d (found by this check): `RNFR g`, `g` vanishes, `RNTO g`: Memory compares the two paths, does nothing
-    and answers 250; POSIX answers 451 (ENOENT) -/
-theorem witness_rename_vanished_same_path :
-    let s : SState := { user := some 0, logged := true, renameFrom := some ["g".toList] }
-    let ev := Event.line "RNTO g".toList []
-    let rm := step cfg1 w1 s ev
-    let rp := stepB Backend.posix cfg1 w1 s ev
-    rm.2.2.replies = [250] ∧ rp.2.2.replies = [451] ∧ rm.1.fs = tree1 ∧ rp.1.fs = tree1 := by
-  decide
-
-/-- the full-strength statement, as a proposition -/
-def FtpStepBisim : Prop :=
-  ∀ (cfg : Cfg) (wm wp : World) (s : SState) (ev : Event),
-    R wm.fs wp.fs → wm.serverFree = wp.serverFree → wm.userFree = wp.userFree →
-    regionAt aimedAtRoot s ev = false →
-    (step cfg wm s ev).2.2.replies = (stepB Backend.posix cfg wp s ev).2.2.replies ∧
-    (step cfg wm s ev).2.2.data = (stepB Backend.posix cfg wp s ev).2.2.data ∧
-    R (step cfg wm s ev).1.fs (stepB Backend.posix cfg wp s ev).1.fs
-
-/-- **ftp_step_bisim is false** on the pinned tree -/
-theorem ftp_step_bisim_false : ¬ FtpStepBisim := by
-  intro h
-  have := h cfg1 w1 w1 { user := some 0, logged := true, renameFrom := some ["a".toList] }
-    (Event.line "RNTO a/sub".toList []) ⟨rfl, tree1_wf⟩ rfl rfl (by decide)
-  have hw := witness_rename_into_itself
-  simp only at hw
-  rw [hw.1, hw.2.1] at this
-  exact absurd this.1 (by decide)
 
 /-! ## what does hold -/
 
-/-- **ftp_step_bisim_partial**: for related trees and EVERY event outside the four regions, the Memory server
-    (`Session.step`) and the filesystem server give the same replies, the same transferred bytes, the same
-    listing, the same session state, and related trees. -/
-theorem ftp_step_bisim_partial (cfg : Cfg) (wm wp : World) (s : SState) (ev : Event)
-    (hR : R wm.fs wp.fs) (hsf : wm.serverFree = wp.serverFree) (huf : wm.userFree = wp.userFree)
-    (_hroot : regionAt aimedAtRoot s ev = false)
-    (h1 : regionAt (throughFile wm.fs) s ev = false)
-    (h2 : regionAt (intoItself wm.fs) s ev = false)
-    (h3 : regionAt (restartCreates wm.fs) s ev = false)
-    (h4 : regionAt samePath s ev = false) :
+/-- **ftp_step_bisim** (full strength): for related trees and EVERY event, the Memory server (`Session.step`)
+    and the filesystem server give the same replies, the same transferred bytes, the same listing, the same
+    session state, and related trees. -/
+theorem ftp_step_bisim (cfg : Cfg) (wm wp : World) (s : SState) (ev : Event)
+    (hR : R wm.fs wp.fs) (hsf : wm.serverFree = wp.serverFree) (huf : wm.userFree = wp.userFree) :
     (step cfg wm s ev).2.2.replies = (stepB Backend.posix cfg wp s ev).2.2.replies ∧
     (step cfg wm s ev).2.2.data = (stepB Backend.posix cfg wp s ev).2.2.data ∧
     (step cfg wm s ev).2.2.listing = (stepB Backend.posix cfg wp s ev).2.2.listing ∧
@@ -128,20 +104,51 @@ theorem ftp_step_bisim_partial (cfg : Cfg) (wm wp : World) (s : SState) (ev : Ev
     simp only at this
     subst this; subst hsf; subst huf; rfl
   subst hw
-  have heq := stepB_posix_eq cfg wm hR.2 s ev h1 h2 h3 h4
+  have heq := stepB_posix_eq cfg wm hR.2 s ev
   rw [heq, stepB_mem]
   refine ⟨rfl, rfl, rfl, rfl, rfl, ?_⟩
   rw [← stepB_mem]
   exact stepB_wf mem_preservesWF cfg wm hR.2 s ev
 
-/-- non-vacuity: a rename of a non-empty directory into another directory is outside every region, succeeds on
-    both backends and moves the subtree -/
+/-- **ftp_run_bisim**: the same over whole histories of one session: replies, bytes and listings of every step
+    agree and the trees stay related -/
+theorem ftp_run_bisim (cfg : Cfg) (evs : List Event) (wm wp : World) (s : SState)
+    (hR : R wm.fs wp.fs) (hsf : wm.serverFree = wp.serverFree) (huf : wm.userFree = wp.userFree) :
+    (evs.foldl (fun (acc : World × SState × List Out) ev =>
+        let r := step cfg acc.1 acc.2.1 ev; (r.1, r.2.1, acc.2.2 ++ [r.2.2])) (wm, s, [])).2 =
+    (evs.foldl (fun (acc : World × SState × List Out) ev =>
+        let r := stepB Backend.posix cfg acc.1 acc.2.1 ev; (r.1, r.2.1, acc.2.2 ++ [r.2.2])) (wp, s, [])).2 := by
+  have hw : wm = wp := by
+    cases wm; cases wp
+    simp only at hsf huf
+    have := hR.1
+    simp only at this
+    subst this; subst hsf; subst huf; rfl
+  subst hw
+  have key : ∀ (evs : List Event) (w : World) (s : SState) (outs : List Out), WF w.fs →
+      evs.foldl (fun (acc : World × SState × List Out) ev =>
+        let r := step cfg acc.1 acc.2.1 ev; (r.1, r.2.1, acc.2.2 ++ [r.2.2])) (w, s, outs) =
+      evs.foldl (fun (acc : World × SState × List Out) ev =>
+        let r := stepB Backend.posix cfg acc.1 acc.2.1 ev; (r.1, r.2.1, acc.2.2 ++ [r.2.2])) (w, s, outs) := by
+    intro evs
+    induction evs with
+    | nil => intros; rfl
+    | cons e t ih =>
+      intro w s outs hwf
+      simp only [List.foldl_cons]
+      have heq := stepB_posix_eq cfg w hwf s e
+      rw [stepB_mem] at heq
+      rw [heq]
+      apply ih
+      rw [← stepB_mem]
+      exact stepB_wf mem_preservesWF cfg w hwf s e
+  rw [key evs wm s [] hR.2]
+
+/-- non-vacuity: a rename of a non-empty directory succeeds on both backends and moves the subtree -/
 example :
     let s : SState := { user := some 0, logged := true, renameFrom := some ["a".toList] }
     let ev := Event.line "RNTO b".toList []
-    regionAt aimedAtRoot s ev = false ∧ regionAt (throughFile tree1) s ev = false ∧
-    regionAt (intoItself tree1) s ev = false ∧ regionAt (restartCreates tree1) s ev = false ∧
-    regionAt samePath s ev = false ∧
+    (step cfg1 w1 s ev).2.2.replies = [250] ∧
     (stepB Backend.posix cfg1 w1 s ev).2.2.replies = [250] ∧
     (stepB Backend.posix cfg1 w1 s ev).1.fs =
       [(["f".toList], .file [1]), (["b".toList], .dir), (["b".toList, "k".toList], .file [7])] := by
@@ -151,7 +158,6 @@ example :
 example :
     let s : SState := { user := some 0, logged := true, passive := true, dataConn := true, restartOffset := 3 }
     let ev := Event.line "STOR f".toList [9, 9]
-    regionAt (restartCreates tree1) s ev = false ∧
     (stepB Backend.posix cfg1 w1 s ev).2.2.replies = [150, 226] ∧
     lookup (stepB Backend.posix cfg1 w1 s ev).1.fs ["f".toList] = some (.file [1, 0, 0, 9, 9]) := by
   decide
@@ -165,32 +171,15 @@ theorem failed_changes_nothing_posix (cfg : Cfg) (w : World) (s : SState) (ev : 
     (stepB Backend.posix cfg w s ev).1.fs = w.fs :=
   stepB_failed cfg w s ev (fun _ _ t src _ _ _ hok => posix_rename_false w.fs src t hok) hf
 
-/-- the same statement for Memory is FALSE: `witness_rename_through_file` is a failed command (451) that
-    removed a subtree -/
-theorem failed_changes_nothing_mem_false :
-    ¬ ∀ (cfg : Cfg) (w : World) (s : SState) (ev : Event),
-      failedOut (step cfg w s ev).2.2 = true → (step cfg w s ev).1.fs = w.fs := by
-  intro h
-  have := h cfg1 w1 { user := some 0, logged := true, renameFrom := some ["a".toList] }
-    (Event.line "RNTO f/x".toList []) (by decide)
-  have hw := witness_rename_through_file
-  simp only at hw
-  rw [hw.2.2.1] at this
-  exact absurd this (by decide)
-
-/-- **failed_changes_nothing_mem_partial**: outside the rename-through-a-file region a failed command leaves
-    the Memory tree as it was -/
-theorem failed_changes_nothing_mem_partial (cfg : Cfg) (w : World) (s : SState) (ev : Event)
-    (h1 : regionAt (throughFile w.fs) s ev = false)
+/-- **failed_changes_nothing_mem** (full strength; on the pinned tree `RNTO` through a file answered 451 and
+    had removed the source subtree, F7-a): whatever the event, if some reply is 4xx/5xx the Memory tree is what
+    it was -/
+theorem failed_changes_nothing_mem (cfg : Cfg) (w : World) (s : SState) (ev : Event)
     (hf : failedOut (step cfg w s ev).2.2 = true) : (step cfg w s ev).1.fs = w.fs := by
   rw [← stepB_mem] at hf ⊢
   apply stepB_failed cfg w s ev _ hf
-  intro v s0 t src ht hv hrf hok
-  apply mem_rename_false w.fs src t hok
-  rintro ⟨a, b⟩
-  simp only [regionAt, ht] at h1
-  subst hv
-  simp [throughFile, hrf, a, b] at h1
+  intro v s0 t src _ _ _ hok
+  exact mem_rename_false w.fs src t hok
 
 example : failedOut (stepB Backend.posix cfg1 w1 { user := some 0, logged := true } (Event.line "RMD a".toList [])).2.2
     = true := by decide
@@ -250,33 +239,13 @@ theorem ops_agree {fs : Fs} (h : WF fs) (p : Path) :
   ⟨posix_exists_eq h p, posix_isDir_eq h p, posix_isFile_eq h p, posix_mkdirParents_eq h p, posix_rmdir_eq h p,
    posix_unlink_eq h p, posix_list_eq h p⟩
 
-/-- `open` differs only for "r+b" on a missing file in an existing directory -/
-theorem open_agrees {fs : Fs} (h : WF fs) (p : Path) (mode : Nat)
-    (hreg : ¬ (3 ≤ mode ∧ lookup fs p = none ∧ isDir fs p.dropLast = true)) :
-    Backend.ofRes (Posix.openFile fs p mode) = Fs.openFile fs p mode := posix_openFile_eq h p mode hreg
+/-- `open` agrees for every path and mode -/
+theorem open_agrees {fs : Fs} (h : WF fs) (p : Path) (mode : Nat) :
+    Backend.ofRes (Posix.openFile fs p mode) = Fs.openFile fs p mode := posix_openFile_eq h p mode
 
-/-- `rename` to a path that does not exist differs only in the three rename regions -/
-theorem rename_agrees {fs : Fs} (h : WF fs) (src dst : Path) (hdst : lookup fs dst = none) (hne : src ≠ dst)
-    (h1 : ¬ (exists_ fs src = true ∧ isFile fs dst.dropLast = true))
-    (h2 : ¬ (exists_ fs src = true ∧ isDir fs dst.dropLast = true ∧ src.isPrefixOf dst = true)) :
-    Backend.posix.rename fs src dst = Fs.rename fs src dst := posix_rename_eq h src dst hdst hne h1 h2
-
-/-- the regions are exact: `open` agrees IF AND ONLY IF it is not "r+b" on a missing file in an existing directory -/
-theorem open_agrees_iff {fs : Fs} (h : WF fs) (p : Path) (mode : Nat) :
-    Backend.ofRes (Posix.openFile fs p mode) = Fs.openFile fs p mode ↔
-      ¬ (3 ≤ mode ∧ lookup fs p = none ∧ isDir fs p.dropLast = true) :=
-  ⟨fun heq hreg => posix_openFile_ne p mode hreg heq, posix_openFile_eq h p mode⟩
-
-/-- … and `rename` to a missing path agrees IF AND ONLY IF it is in none of the three rename regions -/
-theorem rename_agrees_iff {fs : Fs} (h : WF fs) (src dst : Path) (hs : src ≠ []) (hdst : lookup fs dst = none) :
-    Backend.posix.rename fs src dst = Fs.rename fs src dst ↔
-      ¬ (src = dst ∨ (exists_ fs src = true ∧ isFile fs dst.dropLast = true) ∨
-        (exists_ fs src = true ∧ isDir fs dst.dropLast = true ∧ src.isPrefixOf dst = true)) := by
-  constructor
-  · intro heq hreg; exact posix_rename_ne h src dst hs hdst hreg heq
-  · intro hn
-    exact posix_rename_eq h src dst hdst (fun h0 => hn (Or.inl h0)) (fun h1 => hn (Or.inr (Or.inl h1)))
-      (fun h2 => hn (Or.inr (Or.inr h2)))
+/-- `rename` to a path that does not exist (what RNTO's guard ensures) agrees for every source and destination -/
+theorem rename_agrees {fs : Fs} (h : WF fs) (src dst : Path) (hdst : lookup fs dst = none) :
+    Backend.posix.rename fs src dst = Fs.rename fs src dst := posix_rename_eq h src dst hdst
 
 /-! ## PathIO and AsyncPathIO are the same code (tables regenerated from the live source) -/
 
